@@ -125,10 +125,12 @@ impl GraphBlock {
                 .collect::<Vec<String>>()
                 .join(if self.is_sparce_list() { "\n" } else { "" }),
             GraphBlock::Header(level, inlines) => {
+                // an ATX heading is a single line: a line break inside the heading text
+                // (multi-line setext heading) is written as a space
                 format!(
                     "{} {}\n",
                     "#".repeat(*level as usize),
-                    inlines_to_markdown(inlines, options)
+                    inlines_to_markdown(inlines, options).replace('\n', " ")
                 )
             }
             GraphBlock::HorizontalRule => format!("{}\n", "-".repeat(72)),
